@@ -259,6 +259,18 @@ def subsidy(h):
     return 0 if e >= 64 else (1_000_000_000 >> e)
 
 
+def cumulative_subsidy(h):
+    """sum of subsidy(0..h) in closed form per era"""
+    total, era = 0, 0
+    n = h + 1
+    while n > 0 and era < 64:
+        k = min(n, HALVING)
+        total += k * (1_000_000_000 >> era)
+        n -= k
+        era += 1
+    return total
+
+
 def retarget(prev_target_bytes, elapsed, timespan=REAL_TIMESPAN):
     v = int.from_bytes(prev_target_bytes, "big") * elapsed // timespan
     return min(v, TWO256 - 1).to_bytes(32, "big")
